@@ -243,6 +243,7 @@ func checkC03(c *Ctx) {
 
 	// (4) session side
 	c.checkC03Session()
+	c.checkPublishNeedsLogin()
 
 	// (7) the write check reads the cached record and trusts the session's own attachment table:
 	// both must follow the store / the topic (shared rule families of C08 and C14)
